@@ -3,6 +3,47 @@
 spec:      spec/OrderedMap.tla (reference), spec/LinkedSet.tla (implementation layer)
 binding:   (a) replay of the complete LTS emitted by TLC into debian.deb822.Deb822
            (b) validation of recorded histories by spec/TraceOrderedMap.tla
+negative controls: corrupted traces (two keys exchanged after a re-ordering, KeyError turned into ok,
+           a changed spelling, an EMPTIED mapping after a sort whose key function failed, two tied
+           neighbours exchanged after a keyed sort, a swallowed exception of a faulting iterable)
+
+API surface / domain
+  operation of the statement           model action (OrderedMap.tla)        exercised by (every public way drawn per call)
+  assignment                           Set(n, s, v)                         d[k]=v, update({k: v}), update([(k, v)])
+  lookup / membership                  Get / Has                            d[k], get(k), get_as_string(k); k in d, k in d.keys()
+  deletion                             Del                                  del d[k], pop(k)
+  order_first/last/before/after        MoveFirst/MoveLast/MoveBefore/After  the four methods, any case variant of both keys
+  sort_fields() / key=None / str.lower Sort (MSort)                         lts + trace leg
+  sort_fields(key=f), arbitrary f      SortBy(kf, NoFault, ..) = MSortBy:   lts: all 8 two-valued key tables from every state;
+    ("same semantics as for sorted":     the STABLE sort of the current       traces: tables with ties, reversed, permutations,
+    in the domain - "sorting")           order by kf[name]; SortLaw           "known fields first", up to 300 names; key values as
+                                                                              int / tuple / str / float / negative int
+  sort_fields(key=f), f FAULTING for   SortBy(kf, fn, fm), fm in            lts: every state x name x mode as ordinary steps of
+    one field (SIZE_STRESS part 5):      raise / incomp / cmpraise:           edges and walks (fault at the first, a middle, the
+    f raises the caller's exception,     fn present and >= 2 keys: the call   last field, an absent field); traces: arbitrary
+    returns an incomparable key,         fails with the caller's exception    (kf, fn, fm); exception classes CallerFault, OSError,
+    returns a key whose comparison       (identity checked) resp. TypeError   ValueError, KeyError, LookupError, RuntimeError,
+    raises.  In the domain: sorting      and the mapping is UNCHANGED         ZeroDivisionError, UnicodeError; then the history
+    is an operation of the statement,    (ErrAtomic); fn absent: the plain    carries on (same object, retained copies, fresh parse)
+    "sorted" semantics has no result     sort.  UNSPECIFIED: fn is the only
+    when the key function fails          key (f need not be called): either
+                                         outcome, mapping unchanged
+  dump(fd) into a failing fd,          IOFault(kind): mapping unchanged,    _FlakyWriter raising at the first / middle / last
+    parse of a failing line iterator     caller's exception out (dump of an   write (binary and text mode); generator of str / bytes
+                                         EMPTY mapping: unspecified)          lines or iterator object raising at step 0 / mid / end,
+                                                                              followed by a fresh parse of the same text
+  update(iterable that raises)         trace module only (updfault):        generator yielding 0-3 pairs, then raising
+                                         UNSPECIFIED which prefix of the
+                                         pairs was assigned; the caller's
+                                         exception must come out
+  copying                              Copy                                 copy(), deepcopy, pickle round trip, cls(d)
+  dump/parse cycle                     DumpParse                            dump() as str / bytes / lines / StringIO / BytesIO,
+                                                                              dump(fd) binary and text, str(d)
+  start objects: empty, dict-initialised, parsed from text, parsed from a list of lines; classes Deb822, Packages,
+    Sources, Dsc.
+  out of domain / unspecified: order_before/after(k, k) with k absent (KeyError or ValueError); copy.copy()
+    (DESIGN.md 10.4); key functions that depend on the SPELLING they are handed (the harness folds the name before
+    its table lookup); key functions with side effects on the paragraph; a key function faulting for the only field.
 """
 import json
 import random
@@ -11,7 +52,7 @@ import core
 
 MANIFEST = dict(
     technique="TLA+ spec (OrderedMap reference + LinkedSet implementation layer) model-checked by TLC; complete LTS replayed into Deb822; recorded histories validated by TLC (TraceOrderedMap)",
-    text="TLC explores the closed state space of the implementation-level model (hash table + doubly linked list + value dict) and checks that it refines the reference ordered mapping in every reachable state, i.e. for histories of any length over 3 names x 2 spellings x 2 values. The binding is two-way: every transition of the reference LTS plus long random walks are replayed into the real Deb822 class from four kinds of start object with all observables compared after each call, and histories recorded from the real class over 8 names x 4 spellings are validated by TLC against the same actions.",
+    text="TLC explores the closed state space of the implementation-level model (hash table + doubly linked list + value dict) and checks that it refines the reference ordered mapping in every reachable state, i.e. for histories of any length over 3 names x 2 spellings x 2 values. Sorting by a caller-supplied key function is the stable sort of the current order; a key function, file object or line iterator of the caller that fails (raises, returns incomparable keys) is an ordinary step of the histories that must let the caller's exception out and change nothing. The binding is two-way: every transition of the reference LTS plus long random walks are replayed into the real Deb822 class from four kinds of start object with all observables compared after each call, and histories recorded from the real class over 8 names x 4 spellings are validated by TLC against the same actions.",
     note="Small-scope: model constants 3 names/2 spellings/2 values; concretization of names and values is sampled. Trusted: TLC, the projections list(d)/d[k]/dump(), the concretizer. Corrupted control traces must be rejected in every run.",
     design="5 (C09)")
 
@@ -131,6 +172,154 @@ def cls_of(name):
     return getattr(m, name)
 
 
+# ------------------------------------------------------------------ caller-supplied objects that fault
+# (notes/SIZE_STRESS.md part 5): key functions, file objects and iterators built by the harness;
+# what they do is fixed by the MODEL's arguments (kf, fn, fm / kind), only their Python shape is drawn
+
+class CallerFault(Exception):
+    """a private exception class of the caller"""
+
+
+FAULT_EXC = [CallerFault, OSError, ValueError, KeyError, LookupError, RuntimeError, ZeroDivisionError, UnicodeError]
+KEY_REPS = ["int", "tuple", "str", "float", "negint"]
+
+
+class _CmpKey(object):
+    """a sort key whose comparison raises the caller's exception when the faulty key takes part"""
+    __slots__ = ("v", "exc")
+
+    def __init__(self, v, exc=None):
+        self.v, self.exc = v, exc
+
+    def _cmp(self, other, f):
+        for x in (self, other):
+            if isinstance(x, _CmpKey) and x.exc is not None:
+                raise x.exc
+        return f(self.v, other.v)
+
+    def __lt__(self, other):
+        return self._cmp(other, lambda a, b: a < b)
+
+    def __gt__(self, other):
+        return self._cmp(other, lambda a, b: a > b)
+
+    def __le__(self, other):
+        return self._cmp(other, lambda a, b: a <= b)
+
+    def __ge__(self, other):
+        return self._cmp(other, lambda a, b: a >= b)
+
+
+def make_key_function(pick, kf, fault, fm):
+    """kf: lower-cased field name -> key rank; fault: lower-cased name the function faults for (or
+    None); returns (f, inst) where inst is the exception instance the caller raises (or None)"""
+    rep = KEY_REPS[pick(len(KEY_REPS))]
+    conv = {"int": lambda v: v, "tuple": lambda v: (v,), "str": lambda v: "k%06d" % v,
+            "float": lambda v: v + 0.5, "negint": lambda v: v - 1000}[rep]
+    inst = None
+    if fault is not None and fm in ("raise", "cmpraise"):
+        cls = FAULT_EXC[pick(len(FAULT_EXC))]
+        inst = cls("key function of the caller fails for %s" % fault)
+    bad = None
+    if fm == "incomp":
+        pool = {"int": [None, "x", object(), (0,)], "negint": [None, "x", object(), [0]], "float": [None, "1.5", object()],
+                "str": [None, 0, object(), ("k",)], "tuple": [(None,), None, 0, [0], ("x",)]}[rep]
+        bad = pool[pick(len(pool))]
+
+    def f(k):
+        low = k.lower()
+        if low == fault:
+            if fm == "raise":
+                raise inst
+            if fm == "incomp":
+                return bad
+            return _CmpKey(conv(kf[low]), inst)
+        return _CmpKey(conv(kf[low])) if (fm == "cmpraise" and fault is not None) else conv(kf[low])
+    return f, inst
+
+
+class _FlakyWriter(object):
+    """a file object of the caller whose k-th write() raises (k = 0: never)"""
+
+    def __init__(self, k, inst):
+        self.k, self.inst, self.n = k, inst, 0
+
+    def write(self, data):
+        self.n += 1
+        if self.n == self.k:
+            raise self.inst
+        return len(data)
+
+    def flush(self):
+        pass
+
+
+class _FlakyLines(object):
+    """an iterator of the caller that yields k lines and raises at the next step"""
+
+    def __init__(self, lines, k, inst):
+        self.lines, self.k, self.inst, self.i = lines, k, inst, 0
+
+    def __iter__(self):
+        return self
+
+    def __next__(self):
+        if self.i >= self.k:
+            raise self.inst
+        self.i += 1
+        return self.lines[self.i - 1]
+
+
+def _flaky_gen(lines, k, inst):
+    for x in lines[:k]:
+        yield x
+    raise inst
+
+
+def faulted_call(call, inst):
+    """outcome of a call that was handed a faulting object: only the caller's own exception
+    instance counts as CallerError"""
+    try:
+        call()
+    except Exception as ex:
+        if inst is not None and ex is inst:
+            return "CallerError"
+        if type(ex) in (TypeError, KeyError, ValueError):
+            return type(ex).__name__
+        return "EXC:" + type(ex).__name__
+    return "ok"
+
+
+def io_fault(d, kind, pick):
+    cls = type(d)
+    inst = FAULT_EXC[pick(len(FAULT_EXC))]("file object of the caller fails")
+    if kind == "dump":
+        text_mode = bool(pick(2))
+        probe = _FlakyWriter(0, None)
+        d.dump(probe, text_mode=text_mode)
+        n = probe.n
+        k = [1, (n + 1) // 2, n][pick(3)] if n else 1
+        w = _FlakyWriter(k, inst)
+        return faulted_call(lambda: d.dump(w, text_mode=text_mode), inst)
+    text = d.dump()
+    lines = [x + "\n" for x in text.split("\n")[:-1]]
+    k = [0, len(lines) // 2, len(lines)][pick(3)]
+    form = pick(3)
+    if form == 1:
+        lines = [x.encode("utf-8") for x in lines]
+    src = _FlakyLines(lines, k, inst) if form == 2 else _flaky_gen(lines, k, inst)
+    res = faulted_call(lambda: cls(src), inst)
+    # a fresh parse of the same input in the same process is not affected by the failed one
+    if observe_raw(cls(text)) != observe_raw(d):
+        return "fresh-parse-differs-after-failed-parse"
+    return res
+
+
+def sort_desc(lower_of, kf, fn, fm):
+    """model arguments of SortBy -> descriptor for apply_op; lower_of: name rank -> lower-cased field name"""
+    return {"kf": {lower_of[n]: kf[n - 1] for n in lower_of}, "fault": lower_of[fn] if fn else None, "fm": fm}
+
+
 def apply_op(d, op, keys, val, rng=None):
     """returns (new object, result string).  API-surface audit (notes/API_SURFACE.md): every
     public way of performing the operation is drawn at random - the model sees one action"""
@@ -139,6 +328,14 @@ def apply_op(d, op, keys, val, rng=None):
     import pickle
     pick = (lambda n: rng.randrange(n)) if rng is not None else (lambda n: 0)
     cls = type(d)
+    if op == "sortby":
+        f, inst = make_key_function(pick, val["kf"], val["fault"], val["fm"])
+        return d, faulted_call(lambda: d.sort_fields(key=f), inst)
+    if op == "iofault":
+        return d, io_fault(d, val, pick)
+    if op == "updfault":
+        inst = FAULT_EXC[pick(len(FAULT_EXC))]("iterable of the caller fails")
+        return d, faulted_call(lambda: d.update(_flaky_gen(list(val), len(val), inst)), inst)
     try:
         if op == "set":
             v = pick(3)
@@ -296,6 +493,10 @@ def _run_path(start_kind, start_state, path, conc, rng, universe, deep=True):
             keys, val = [conc.any_key(rng, a[0]), conc.any_key(rng, a[1])], None
         elif op in ("sort", "copy", "dumpparse"):
             keys, val = [], None
+        elif op == "sortby":
+            keys, val = [], sort_desc({n: conc.base[n].lower() for n in conc.base}, a[0], a[1], a[2])
+        elif op == "iofault":
+            keys, val = [], a[0]
         else:
             keys, val = [conc.any_key(rng, a[0])], None
         prev = d
@@ -308,13 +509,17 @@ def _run_path(start_kind, start_state, path, conc, rng, universe, deep=True):
         mres = e["res"]
         unspec = op in ("before", "after") and a[0] == a[1] and not any(x["n"] == a[0] for x in e["from"])
         where = "step %d %s%r" % (i + 1, op, tuple(keys) + ((val,) if val is not None else ()))
+        if op == "sortby":
+            where = "step %d sort_fields(key=f) [f: %r, faulting for %r in mode %r]" % (i + 1, val["kf"], val["fault"], val["fm"])
+        elif op == "iofault":
+            where = "step %d %s with a faulting %s" % (i + 1, "dump(fd)" if val == "dump" else "parse", "fd" if val == "dump" else "line iterator")
         if isinstance(res, tuple):
             if mres == "KeyError" or res[1] != conc.val[mres]:
                 return "%s returned %r, model says %r" % (where, res[1], mres if mres == "KeyError" else conc.val[mres])
         elif unspec:
             if res not in ("KeyError", "ValueError"):
                 return "%s: expected an error, got %r" % (where, res)
-        elif res != mres:
+        elif res != mres and res not in e.get("alt", ()):
             return "%s: outcome %r, model says %r" % (where, res, mres)
         obs = observe_raw(d)
         exp = expected_obs(e["to"], conc)
@@ -334,11 +539,20 @@ def _run_path(start_kind, start_state, path, conc, rng, universe, deep=True):
     return None
 
 
+def walk_weight(x):
+    """random walks: state-changing steps three times as likely; the 8 key-function variants of a
+    fault-free sort_fields(key=f) and the 9 faulted ones share the weight of a few ordinary calls"""
+    w = 3.0 if x["from"] != x["to"] else 1.0
+    if x["op"] == "sortby":
+        return w * (0.5 if x["args"][1] == 0 else 0.7)
+    return w
+
+
 def private_drift(ctx):
     """diagnostic only: the private linked list agrees with itself"""
     from debian.deb822 import Deb822
     try:
-        d = Deb822([("A", "1"), ("b", "2"), ("C", "3")])
+        d = Deb822({"A": "1", "b": "2", "C": "3"})
         d.order_first("c")
         ks = d._Deb822Dict__keys
         order = ks._OrderedSet__order
@@ -387,7 +601,9 @@ def record_trace(rng, nnames, nops):
         d = Deb822()
     init = [{"n": rank[k.lower()], "s": k, "v": v} for k, v in pairs]
     events = []
-    ops = ["set"] * 5 + ["get", "has", "del", "del", "first", "last", "before", "after", "before", "after", "sort", "copy", "dumpparse"]
+    ops = ["set"] * 5 + ["get", "has", "del", "del", "first", "last", "before", "after", "before", "after", "sort", "copy", "dumpparse",
+                         "sortby", "sortby", "sortby", "iofault", "updfault"]
+    lower_of = {i + 1: b.lower() for i, b in enumerate(base)}
     for _ in range(nops):
         op = rng.choice(ops)
         i = rng.randrange(nnames)
@@ -397,10 +613,48 @@ def record_trace(rng, nnames, nops):
         k1 = rng.choice(list(spellings(base[i]).values()))
         k2 = rng.choice(list(spellings(base[j]).values()))
         v = rng.choice(values)
-        d, res = apply_op(d, op, [k1, k2], v, rng)
+        ev = {"op": op, "n": i + 1, "r": j + 1, "s": k1, "v": v}
+        arg = v
+        if op == "sortby":
+            # the caller's key function: few key values (ties: stability), the reverse order, a
+            # permutation, or the "known fields first" table; it faults for the first / a middle /
+            # the last field of the paragraph, for any name (possibly absent), or not at all
+            style = rng.randrange(4)
+            if style == 0:
+                kf = [rng.randrange(3) for _ in range(nnames)]
+            elif style == 1:
+                kf = [nnames - x for x in range(nnames)]
+            elif style == 2:
+                kf = rng.sample(range(nnames), nnames)
+            else:
+                known = rng.sample(range(nnames), min(nnames, 3))
+                kf = [known.index(x) if x in known else 1000 for x in range(nnames)]
+            cur = [rank[k.lower()] for k in d]
+            u = rng.random()
+            if u < 0.4:
+                fn = 0
+            elif u < 0.85 and cur:
+                fn = cur[rng.choice([0, len(cur) // 2, -1, rng.randrange(len(cur))])]
+            else:
+                fn = i + 1
+            fm = rng.choice(["raise", "incomp", "cmpraise"]) if fn else "none"
+            ev.update(kf=kf, fn=fn, fm=fm)
+            arg = sort_desc(lower_of, kf, fn, fm)
+        elif op == "iofault":
+            ev["kind"] = rng.choice(["dump", "parse"])
+            arg = ev["kind"]
+        elif op == "updfault":
+            ps = []
+            for _k in range(rng.choice([0, 1, 1, 2, 3])):
+                x = rng.randrange(nnames)
+                ps.append({"n": x + 1, "s": rng.choice(list(spellings(base[x]).values())), "v": rng.choice(values)})
+            ev["ps"] = ps
+            arg = [(q["s"], q["v"]) for q in ps]
+        d, res = apply_op(d, op, [k1, k2], arg, rng)
         if isinstance(res, tuple):
             res = res[1]
-        events.append({"op": op, "n": i + 1, "r": j + 1, "s": k1, "v": v, "res": res, "obs": proj(d)})
+        ev.update(res=res, obs=proj(d))
+        events.append(ev)
     return {"init": init, "events": events, "start": start_kind, "base": base}
 
 
@@ -418,13 +672,23 @@ def corrupt(t, how):
         if how == "spelling" and e["op"] == "set" and e["obs"]:
             e["obs"][-1]["s"] = e["obs"][-1]["s"] + "x"
             return t
+        if how == "faultsort" and e["op"] == "sortby" and e["res"] in ("CallerError", "TypeError") and len(e["obs"]) >= 2:
+            e["obs"] = []          # a failed sort that emptied the order list
+            return t
+        if how == "keysort" and e["op"] == "sortby" and e["res"] == "ok" and len(e["obs"]) >= 2 and e["obs"][0]["n"] != e["obs"][1]["n"] \
+                and e["kf"][e["obs"][0]["n"] - 1] == e["kf"][e["obs"][1]["n"] - 1]:
+            e["obs"][0], e["obs"][1] = e["obs"][1], e["obs"][0]      # an unstable sort
+            return t
+        if how == "updres" and e["op"] == "updfault":
+            e["res"] = "ok"        # the caller's exception was swallowed
+            return t
     return None
 
 
 def validate(ctx, traces, with_controls=True):
     controls = []
     if with_controls:
-        for how in ("order", "res", "spelling"):
+        for how in ("order", "res", "spelling", "faultsort", "keysort", "updres"):
             for t in traces:
                 c = corrupt(t, how)
                 if c:
@@ -454,7 +718,7 @@ def run(ctx):
         "trusted: TLC, the projection list(d)/d[k]/dump(), the concretizer",
     ]
     # 1. design level: implementation-layer model refines the reference (any history)
-    r_impl = ctx.tlc_must_hold("LinkedSet", "MC_LinkedSet.cfg" if not quick else "MC_LinkedSet_quick.cfg")
+    r_impl = ctx.tlc_must_hold("LinkedSet", "MC_LinkedSet.cfg" if not quick else "MC_LinkedSet_quick.cfg", workers=4)
     # 2. reference LTS, complete
     r = ctx.tlc_must_hold("OrderedMap", "MC_OrderedMap_lts.cfg", workers=1, want_tags={"EDGE"})
     g = LTS(r.printed["EDGE"], [])
@@ -501,7 +765,7 @@ def run(ctx):
             break
         start_key = rng.choice(keys)
         kind = rng.choice(kinds[1:]) if start_key != g.init else "empty"
-        path = g.walk(rng, start_key, wlen, weight=lambda x: 3 if x["from"] != x["to"] else 1)
+        path = g.walk(rng, start_key, wlen, weight=walk_weight)
         conc = Conc(rng, names, values)
         pseed = rng.getrandbits(32)
         msg = run_path(kind, g.states[start_key], path, conc, random.Random(pseed), names, deep=(w % 10 == 0))
@@ -598,9 +862,17 @@ def re_record(t):
     else:
         d = Deb822()
     events = []
+    lower_of = {i + 1: b.lower() for i, b in enumerate(base)}
     for e in t["events"]:
         k2 = base[e["r"] - 1]
-        d, res = apply_op(d, e["op"], [e["s"], k2], e["v"])
+        arg = e["v"]
+        if e["op"] == "sortby":
+            arg = sort_desc(lower_of, e["kf"], e["fn"], e["fm"])
+        elif e["op"] == "iofault":
+            arg = e["kind"]
+        elif e["op"] == "updfault":
+            arg = [(q["s"], q["v"]) for q in e["ps"]]
+        d, res = apply_op(d, e["op"], [e["s"], k2], arg)
         if isinstance(res, tuple):
             res = res[1]
         events.append(dict(e, res=res, obs=[{"n": rank[k.lower()], "s": k, "v": d[k]} for k in d]))
